@@ -219,3 +219,70 @@ def chain(rng, nlayers, labels, root='map', nulls=True, hostile=0.15, fold=None)
             break
         cur = nxt
     return layers
+
+
+# ---------------------------------------------------------------------------
+# documents that use the evaluation directives (C09, C19, C08 seeds)
+
+FEATURES = ['merge-map', 'merge-map-deep', 'merge-str', 'replace-map', 'replace-str', 'merge-list', 'merge-listpath', 'cross-merge', 'cross-replace',
+            'interp', 'env', 'encode', 'encode-value', 'decode', 'repeat-doc', 'repeat-doc-named', 'repeat-list', 'repeat-map', 'output-true',
+            'output-false', 'template-doc', 'nested-merge-in-target', 'list-entry-merge-map']
+
+
+def evaldoc(rng, idx, ndocs, labels, nfeat=None):
+    """A map-rooted document exercising a random subset of the evaluation directives."""
+    d = {'name': 'd%d' % idx, 't': {'x': rng.choice([1, 2, 's']), 'y': [1, 2], 'z': {'w': True, 'v': rng.choice([1.5, 'q'])}}}
+    feats = rng.sample(FEATURES, nfeat or rng.randint(1, 5))
+    other = 'd%d' % rng.choice([j for j in range(ndocs) if j != idx]) if ndocs > 1 else None
+    for f in feats:
+        labels.add('feat:' + f)
+        if f == 'merge-map':
+            d['h1'] = {'$merge': 't', 'own': 5}
+        elif f == 'merge-map-deep':
+            d['h2'] = {'$merge': 't.z', 'w2': 1}
+        elif f == 'merge-str':
+            d['h3'] = '$merge:t.x'
+        elif f == 'replace-map':
+            d['h4'] = {'$replace': 't.y'}
+        elif f == 'replace-str':
+            d['h5'] = '$replace:t.z'
+        elif f == 'merge-list':
+            d['h6'] = [0, {'$merge': 't.y'}]
+        elif f == 'merge-listpath':
+            d['h7'] = {'$merge': ['t', 'z'], 'k': 1}
+        elif f == 'cross-merge' and other:
+            d['h8'] = {'$merge': {'$match': {'name': other}, '$path': 't.z'}, 'mine': 1}
+        elif f == 'cross-replace' and other:
+            d['h9'] = {'$replace': [{'name': other}, 't', 'y']}
+        elif f == 'interp':
+            d['i1'] = '$"v={t.x}-{name}"'
+        elif f == 'env':
+            d['e1'] = '$env:HOME'
+        elif f == 'encode':
+            d['c1'] = {'$encode': rng.choice(['json', 'base64', 'yaml', 'toml']), 'k': 1, 'l': [1, 2]}
+        elif f == 'encode-value':
+            d['c2'] = {'$encode': 'join:,', '$value': [1, 2, 3]}
+        elif f == 'decode':
+            d['c3'] = {'$decode': 'json', '$value': '{"a":1,"b":[1.5,"x"]}'}
+        elif f == 'repeat-doc' and '$repeat' not in d:
+            d['$repeat'] = rng.choice([2, 3])
+            d['r'] = '$"{$repeat}"'
+        elif f == 'repeat-doc-named' and '$repeat' not in d:
+            d['$repeat'] = {'a': 2, 'b': 2}
+            d['r'] = '$"{$repeat:a}-{$repeat:b}"'
+        elif f == 'repeat-list':
+            d['rl'] = [{'$repeat': 2, 'idx': '$repeat'}, 'tail']
+        elif f == 'repeat-map':
+            d['rm'] = {'$"k{$repeat}"': {'$repeat': 2, 'v': '$repeat'}}
+        elif f == 'output-true':
+            d['o1'] = {'$output': True, 'p': 1, 'q': '$merge:t.x'}
+        elif f == 'output-false':
+            d['o2'] = {'$output': False, 'hid': 1}
+        elif f == 'template-doc' and ndocs > 1 and idx > 0:
+            d['$output'] = False
+        elif f == 'nested-merge-in-target':
+            d['t']['n'] = {'$merge': 't.z', 'extra': 1}
+            d['h10'] = {'$replace': 't.n'}
+        elif f == 'list-entry-merge-map':
+            d['h11'] = [{'$merge': 't.z', 'sib': 1}, {'plain': 1}]
+    return d
